@@ -12,7 +12,7 @@ import itertools
 from fractions import Fraction
 import common
 from common import enc, dec, err_kind
-from props import c16x
+from props import c16x, c16k
 
 ID = "C16"
 RULE = ("exhaustive small histories (all op words over {add(d,len), next} up to a length, all batch "
@@ -329,6 +329,8 @@ def _exact_ok(c):
         return True
     if c["entry"] == "streamix_sys":
         return c16x.valid(c)
+    if c["entry"] in ("streamix_k", "streamix_mut"):
+        return c16k.valid(c)
     seq = c["entry"] == "streamix_seq"
     Tsum = Fraction(0)
     if c.get("tol") and (c["zk"] != "int" or c.get("defaults")):
@@ -378,6 +380,8 @@ def _generate(rng, tier, scale=1):
         cases += c16x.exhaustive(tier)
     for i in range((2500 if tier == "quick" else 30000) * scale):
         cases.append(c16x.random_case(rng, big=(i % 4 == 0)))
+    # value AND type of every sample, identities in the containers, events finishing together, a mutable zero (c16k)
+    cases += c16k.generate(rng, tier, scale)
     return cases
 
 
@@ -468,6 +472,8 @@ def impl(c):
             return _impl_control(c)
         if c["entry"] == "streamix_sys":
             return c16x.impl(c)
+        if c["entry"] in ("streamix_k", "streamix_mut"):
+            return c16k.impl(c)
         return _impl_streamix(c)
     except Exception as e:
         return {"err": err_kind(e)}
@@ -476,6 +482,8 @@ def impl(c):
 def request(c):
     if c["entry"] == "streamix_sys":
         return c16x.request(c)
+    if c["entry"] in ("streamix_k", "streamix_mut"):
+        return c16k.request(c)
     if c["entry"] == "control":
         return {"entry": "control", "init": c["init"], "ops": c["ops"]}
     ops = []
@@ -538,6 +546,8 @@ def compare(c, io, drv):
     out = []
     if c["entry"] == "streamix_sys":
         return c16x.compare(c, io, drv)
+    if c["entry"] in ("streamix_k", "streamix_mut"):
+        return c16k.compare(c, io, drv)
     if "err" in io:
         return [("model", "impl raised " + io["err"]), ("spec", "impl raised " + io["err"])]
     if c["entry"] == "control":
@@ -564,6 +574,8 @@ def nontrivial(c, io):
         return False
     if c["entry"] == "streamix_sys":
         return c16x.nontrivial(c, io)
+    if c["entry"] in ("streamix_k", "streamix_mut"):
+        return c16k.nontrivial(c, io)
     if c["entry"] == "control":
         seen_set = False
         for op in c["ops"]:
@@ -583,6 +595,8 @@ def tally(eng, c, io):
     eng.count("entry", c["entry"])
     if c["entry"] == "streamix_sys":
         return c16x.tally(eng, c, io)
+    if c["entry"] in ("streamix_k", "streamix_mut"):
+        return c16k.tally(eng, c, io)
     if "err" in io:
         eng.count("impl_error", io["err"])
         return
@@ -666,6 +680,10 @@ def _shrink(c):
         for x in c16x.shrink(c):
             yield x
         return
+    if c["entry"] in ("streamix_k", "streamix_mut"):
+        for x in c16k.shrink(c):
+            yield x
+        return
     ops = c["ops"]
     if c["entry"] == "control":
         for i in range(len(ops)):
@@ -712,6 +730,10 @@ def _neighbours(c):
         for x in c16x.neighbours(c):
             yield x
         return
+    if c["entry"] in ("streamix_k", "streamix_mut"):
+        for x in c16k.neighbours(c):
+            yield x
+        return
     if c["entry"] == "control":
         yield dict(c, ops=c["ops"] + [{"op": "read"}])
         return
@@ -738,6 +760,8 @@ def _kind(o):
 def classify(c, io, drv):
     if c["entry"] == "streamix_sys":
         return c16x.classify(c, io, drv)
+    if c["entry"] in ("streamix_k", "streamix_mut"):
+        return c16k.classify(c, io, drv)
     if "err" in io:
         return c["entry"] + ":" + io["err"]
     if c["entry"] == "control":
